@@ -322,3 +322,35 @@ func (w *World) constGlobal(pkg, name string) bool {
 	constGlobalCache[key] = res
 	return res
 }
+
+// GlobalNamed resolves a package-level variable by name or, when it was renamed, as the only
+// variable of the package with that type (types.TypeString relative to the package).
+func (w *World) GlobalNamed(pkg, name, typ string) string {
+	if w.Global(pkg, name) != nil {
+		return name
+	}
+	p := w.SSA[pkg]
+	if p == nil {
+		return ""
+	}
+	found := ""
+	for n, m := range p.Members {
+		g, ok := m.(*ssa.Global)
+		if !ok {
+			continue
+		}
+		ts := types.TypeString(deref(g.Type()), func(q *types.Package) string {
+			if q == p.Pkg {
+				return ""
+			}
+			return q.Name()
+		})
+		if ts == typ {
+			if found != "" {
+				return ""
+			}
+			found = n
+		}
+	}
+	return found
+}
